@@ -17,6 +17,7 @@ type RaftCfg struct {
 	LeaderTimeoutReset                             bool
 	AllStrings                                     []string
 	FIFO                                           bool // restrict the bag network to per-link FIFO delivery (C08/C09)
+	HotKey                                         bool // the environment offers requests on one key only (C09 workloads)
 }
 
 func num(i int) tla.Value { return tla.MakeNumber(int32(i)) }
@@ -106,6 +107,18 @@ func Raftkvs(c RaftCfg) *mpexec.System {
 	for _, k := range strs {
 		allReqs = append(allReqs, tla.MakeRecord([]tla.RecordField{
 			{Key: tla.MakeString("type"), Value: tla.MakeString("get")}, {Key: tla.MakeString("key"), Value: k}}))
+	}
+
+	// the requests the environment offers on reqCh: all of AllReqs, or (HotKey) only those on the first key, so
+	// that successive Puts overwrite each other and every Get observes the outcome
+	offered := allReqs
+	if c.HotKey {
+		offered = nil
+		for _, r := range allReqs {
+			if r.ApplyFunction(tla.MakeString("key")).Equal(strs[0]) {
+				offered = append(offered, r)
+			}
+		}
 	}
 
 	s := &mpexec.System{Name: "raftkvs", W: w, Consts: []distsys.MPCalContextConfigFn{
@@ -279,7 +292,7 @@ func Raftkvs(c RaftCfg) *mpexec.System {
 					distsys.EnsureArchetypeRefParam("netLen", netLen(p)),
 					distsys.EnsureArchetypeRefParam("fd", unreliableFD(p)),
 					distsys.EnsureArchetypeRefParam("reqCh", mpexec.Leaf(func() (tla.Value, error) {
-						return allReqs[p.EnvChoose("reqCh", uint(len(allReqs)))], nil
+						return offered[p.EnvChoose("reqCh", uint(len(offered)))], nil
 					}, nil)),
 					distsys.EnsureArchetypeRefParam("respCh", mpexec.PlainVar(w, "respCh")),
 					distsys.EnsureArchetypeRefParam("timeout", mpexec.Leaf(func() (tla.Value, error) {
@@ -325,6 +338,6 @@ func init() {
 	Register("raftkvs", func(n int, args map[string]int) *mpexec.System {
 		return Raftkvs(RaftCfg{NumServers: n, NumClients: Arg(args, "clients", 1), BufferSize: Arg(args, "buffer", 3),
 			MaxNodeFail: Arg(args, "maxfail", 1), ExploreFail: Arg(args, "fail", 1) == 1, LeaderTimeoutReset: Arg(args, "ltreset", 1) == 1,
-			AllStrings: []string{"s1", "s2", "s3"}[:Arg(args, "strings", 2)], FIFO: Arg(args, "fifo", 0) == 1})
+			AllStrings: []string{"s1", "s2", "s3"}[:Arg(args, "strings", 2)], FIFO: Arg(args, "fifo", 0) == 1, HotKey: Arg(args, "hotkey", 0) == 1})
 	})
 }
